@@ -13,7 +13,7 @@ set_option linter.unusedVariables false
 /-- a part-less word or assignment node -/
 def Leaf (n : Node) : Prop :=
   (∃ p s, n = Node.word p s []) ∨ (∃ p s, n = Node.assignment p s []) ∨
-    (∃ p t p' w, n = Node.redirect p .none t (some (Node.word p' w [])) .none none none)
+    (∃ p i t p' w, n = Node.redirect p i t (some (Node.word p' w [])) .none none none)
 
 def AllLeaf (ns : List Node) : Prop := ∀ n ∈ ns, Leaf n
 
@@ -25,7 +25,8 @@ theorem Item.node_leaf (it : Item) (a : Nat) : Leaf (it.node a) := by
 theorem Elem.node_leaf (el : Elem) (a : Nat) : Leaf (el.node a) := by
   cases el with
   | simple it => exact Item.node_leaf it a
-  | redir o g2 w => exact Or.inr (Or.inr ⟨_, _, _, _, rfl⟩)
+  | redir o g2 w => exact Or.inr (Or.inr ⟨_, _, _, _, _, rfl⟩)
+  | nredir n o g2 w => exact Or.inr (Or.inr ⟨_, _, _, _, _, rfl⟩)
 
 theorem nodesJ_leaf : ∀ (items : List (Str × Elem)) (off : Nat), AllLeaf (nodesJ off items)
   | [], _ => fun _ h => by cases h
@@ -40,7 +41,7 @@ theorem GCmd.nodes_leaf (c : GCmd) (off : Nat) : AllLeaf (c.nodes off) := by
   intro n hn
   simp only [GCmd.nodes, List.mem_cons] at hn
   rcases hn with rfl | hn
-  · exact Item.node_leaf _ _
+  · exact Elem.node_leaf _ _
   · exact nodesJ_leaf _ _ n hn
 
 theorem resolveL_leaf (store : List RedirCell) : ∀ (ns : List Node), AllLeaf ns →
@@ -48,7 +49,7 @@ theorem resolveL_leaf (store : List RedirCell) : ∀ (ns : List Node), AllLeaf n
   | [], _ => by simp [resolveL]
   | n :: r, h => by
     have ih := resolveL_leaf store r (fun m hm => h m (List.mem_cons_of_mem _ hm))
-    rcases h n (List.mem_cons_self ..) with ⟨p, s, rfl⟩ | ⟨p, s, rfl⟩ | ⟨p, t, p', w, rfl⟩ <;>
+    rcases h n (List.mem_cons_self ..) with ⟨p, s, rfl⟩ | ⟨p, s, rfl⟩ | ⟨p, i, t, p', w, rfl⟩ <;>
       simp [resolveL, resolve, ih]
 
 /-- a function that is `none` on every node kind of the sub-language -/
@@ -66,7 +67,7 @@ theorem filterMap_preorderL_leaf {β : Type} {f : Node → Option β} (hf : None
   | [], _ => by simp [Node.preorderL]
   | n :: r, h => by
     have ih := filterMap_preorderL_leaf hf r (fun m hm => h m (List.mem_cons_of_mem _ hm))
-    rcases h n (List.mem_cons_self ..) with ⟨p, s, rfl⟩ | ⟨p, s, rfl⟩ | ⟨p, t, p', w, rfl⟩ <;>
+    rcases h n (List.mem_cons_self ..) with ⟨p, s, rfl⟩ | ⟨p, s, rfl⟩ | ⟨p, i, t, p', w, rfl⟩ <;>
       simp [Node.preorderL, Node.preorder, Node.preorderO, List.filterMap_append, ih, hf.w, hf.a, hf.r]
 
 /-- a part of a pipeline or a flat list: a command over leaves, an operator, a pipe -/
